@@ -197,6 +197,26 @@ func c06carry(pid int, pusi bool, chunk []byte, padPayload bool) packet.Packet {
 	return p
 }
 
+// c06carryAF0: adaptation_field_length 0 (one stuffing byte, no flags byte), then the chunk, then
+// 0xFF payload stuffing (only valid for the last packet of a section)
+func c06carryAF0(pid int, pusi bool, chunk []byte) packet.Packet {
+	var p packet.Packet
+	vrt.Bytes("tshdr", p[:4])
+	p[0] = 0x47
+	p[1] = p[1]&0xA0 | byte(pid>>8)
+	if pusi {
+		p[1] |= 0x40
+	}
+	p[2] = byte(pid)
+	p[3] |= 0x30
+	p[4] = 0
+	copy(p[5:], chunk)
+	for i := 5 + len(chunk); i < 188; i++ {
+		p[i] = 0xFF
+	}
+	return p
+}
+
 func VH_C06_ReadPMT() {
 	shapes := c06shapes()
 	var withStreams []c06shape
@@ -240,14 +260,17 @@ func VH_C06_ReadPMT() {
 	}
 	// bit 0: packets of another PID interleaved before and between; bit 1: last packet padded
 	// with 0xFF payload stuffing instead of adaptation-field stuffing
+	// styles 4/5: last packet with a zero-length adaptation field (the single stuffing byte) and
+	// 0xFF payload stuffing after the section
 	style := 0
 	if mode == 2 && vrt.Tier() == 0 {
-		style = vrt.Choose("style", 0, 1) * 3
+		style = []int{0, 3, 4}[vrt.Choose("style", 0, 2)]
 	} else {
-		style = vrt.Choose("style", 0, 3)
+		style = vrt.Choose("style", 0, 5)
 	}
 	inter := style&1 == 1
 	padLast := style&2 == 2
+	af0Last := style >= 4
 	pid := vrt.Int("pmtpid")
 	vrt.Assume(pid >= 0x10 && pid < 0x1FFF)
 	var other packet.Packet
@@ -270,6 +293,9 @@ func VH_C06_ReadPMT() {
 	for i, c := range chunks {
 		last := i == len(chunks)-1
 		pk := c06carry(pid, i == 0, c, last && padLast)
+		if last && af0Last {
+			pk = c06carryAF0(pid, i == 0, c)
+		}
 		stream = append(stream, pk[:]...)
 		if !last && inter {
 			stream = append(stream, other[:]...)
